@@ -125,6 +125,8 @@ type c05Result struct {
 	frozenJudged int
 	restarts     int
 	replay       map[string]any
+	c03          []vio // end-to-end part of C03's resume clause over the same execution (see c03s.go)
+	c03st        c03sStats
 }
 
 type vio struct{ key, desc string }
@@ -471,6 +473,7 @@ func runC05Case(c *c05Case, name string) *c05Result {
 	rs.stopPump()
 	c05Oracle(rs, res, missing)
 	c05Frozen(rs, res, droppedColl, markerSent)
+	res.c03, res.c03st = c03ResumeOracle(rs)
 	if os.Getenv("C05_DEBUG") != "" {
 		for _, e := range s.events() {
 			if e.Kind == "note" || e.Kind == "api" || e.Kind == "kill" || e.Kind == "child-start" {
